@@ -50,6 +50,12 @@ register('C01', 'class-stratified Hypothesis pairs (target-driven meshes, histor
          'splitting a generated class with a measured count.',
          'vlib/refint.py + vlib/geo.py; domain bound for close disjoint pairs of size ratio > 8 (DESIGN.md 2.1)', 'DESIGN.md 3/C01, 2.1, 2.3')
 
+register('C04', 'Hypothesis pairs / matrices / points with exact-zero, sign and positivity oracles against a positive low-order reference',
+         'Acausal => exactly 0.0, causal => non-negative and positive where the reference exceeds 1e-240, for bilform (both switches), the three assembly paths of '
+         'bilform_matrix incl. rectangular lists and the pool with 1..4 workers, MP_SL_matrix_col, evaluate, evaluate_exact, potential, at times incl. t_start, '
+         'nextafter(t_start), t_end. Three narrow known findings (closed-form noise, unresolved spike).',
+         'magnitude reference only needed within 1e10; known findings keyed by call site and magnitude window', 'DESIGN.md 3/C04, 4')
+
 NOT_YET = {}
 def main():
     props = [json.loads(l)['id'] for l in open(os.path.join(V, 'properties.jsonl'))]
